@@ -178,7 +178,10 @@ class Sandbox:
             dirs.sort()
             for f in sorted(files):
                 p = os.path.join(d, f)
-                st = os.stat(p)
+                try:
+                    st = os.stat(p)  # follows a symlink to the real file
+                except OSError:
+                    continue  # dangling link
                 with open(p, "rb") as fh:
                     out[os.path.relpath(p, self.root)] = (fh.read(), st.st_ino)
         return out
